@@ -47,3 +47,9 @@ def zerosI (r c : Nat) : List (List Int) := List.replicate r (List.replicate c 0
 /-- `t[i][j] = 1` -/
 def wr (t : List (List Int)) (i j : Nat) : List (List Int) := t.set i ((t.getD i []).set j 1)
 end NASim.PyRt
+
+namespace NASim.PyRt
+/-- `flags[name]` on a name → flag dictionary (a flag list, names are indices) where the name may be `None`: `None` is
+not a key (`KeyError`); the generator only asks behind an `is None` test or for a name its own definitions always carry -/
+def flagAt (l : List Bool) (k : Option Nat) : Bool := match k with | some i => l.getD i false | none => false
+end NASim.PyRt
